@@ -150,7 +150,49 @@ def run(ctx):
             ctx.disagree('Fz.factorizationOf (relational model of factorize_rule) rejects the implementation\'s output', case, None, rep)
         if method in ('quickbb', 'acb') and valid == 'T' and int(w) != int(tw):
             ctx.fail(f'method={method} is not honoured: width {w}, treewidth {tw}', case, int(w), int(tw), tags=['factorize', 'method', method])
+    run_shared_labels(ctx)
     run_grammars(ctx)
+
+
+def run_shared_labels(ctx):
+    """the documented contract of the `labels` argument ("the set of EdgeLabel names to avoid; new EdgeLabels are added to the
+    set"): several rules factorized one after the other with ONE caller-owned set - initially empty, or pre-filled - must get
+    fresh nonterminals that are pairwise distinct across all the calls, and the set must afterwards hold every label in use"""
+    n = 40 if ctx.quick else 600
+    for k in range(n):
+        rules = [random_rule(ctx.rng, k) for _ in range(ctx.rng.choice([2, 2, 3]))]
+        method = ctx.rng.choice(METHODS)
+        mode = ctx.rng.choice(['empty', 'empty', 'prefilled'])
+        shared = set() if mode == 'empty' else {EdgeLabel('X_2', [], is_terminal=True)}
+        case = dict(rules=[enc_rule(r) for r in rules], method=method, shared_labels=mode)
+        fresh_all, in_use = [], {l.name for l in shared}
+        ok = True
+        for r in rules:
+            try:
+                out = factorize_rule(r, method=method, labels=shared)
+            except Exception as e:  # noqa
+                ctx.fail(f'factorize_rule raised {type(e).__name__}', case, repr(e), None, tags=['raises', method]); ok = False; break
+            # names a fresh label of THIS call must avoid: what the set held before the call plus the rule's own labels
+            # (labels of rules factorized later are unknown to the call unless the caller put them into the set)
+            in_use |= {r.lhs.name} | {l.name for l in r.rhs.edge_labels()}
+            fresh = [q.lhs for q in out if q.lhs != r.lhs]
+            if any(l.name in in_use for l in fresh):
+                ctx.fail('factorize_rule with a shared label set: a fresh nonterminal name collides with a label that was in the set or in the rule',
+                         case, [l.name for l in fresh], sorted(in_use), tags=['factorize', 'names', 'shared-set', method])
+            in_use |= {l.name for l in fresh}
+            fresh_all += fresh
+        if not ok:
+            continue
+        ctx.case(case, ('shared', k, method, mode) if len(fresh_all) >= 2 else None, sample_every=200)
+        ctx.count(f'shared-labels.{mode}.fresh={min(len(fresh_all), 6)}')
+        names = [l.name for l in fresh_all]
+        if len(set(names)) != len(names):
+            ctx.fail('factorize_rule with a shared label set: the same fresh nonterminal name was handed out to two different rules',
+                     case, names, None, tags=['factorize', 'names', 'shared-set', method])
+        missing = (in_use | set(names)) - {l.name for l in shared}
+        if missing:
+            ctx.fail('factorize_rule did not add the labels in use / the new labels to the caller\'s label set', case, sorted(missing), None,
+                     tags=['factorize', 'labels-not-extended', method])
 
 
 def run_grammars(ctx):
